@@ -362,31 +362,134 @@ def r17_2(ctx):
 
 
 def r17_3(ctx):
-    """R17.3 validator and setter agree: per numeric type the acceptance test of formatting.check_valid contains every
-    conjunct of Symbol.value_is_valid (form check, and for hex non-negativity)."""
+    """R17.3 validator and setter agree: every path on which formatting.check_valid accepts an int / hex text has passed the
+    setter's own form predicate `_is_base_n(<text as applied>, base)` positively, and for hex has excluded a negative number and
+    a sign (Symbol.value_is_valid: `_is_base_n(value, 16) and int(value, 16) >= 0`, the text being applied behind `0x`) -
+    decided by evaluating the tests on each accepting path over the atoms A (form), H (hex), N (negative), G (signed) and free
+    atoms for everything else. An acceptance decided by `int()` succeeding is *not* the setter's predicate: `1_0` and `+5`
+    pass int() and are dropped by set_value() (fixed defect 5.58). For float the validator tests is_float on the text."""
+    import itertools as _it
     repo = ctx.repo
     viv = repo.func(f"{CORE}:Symbol.value_is_valid")
     cv = repo.func(f"{FMT}:check_valid")
     ctx.analysed(viv.qual, cv.qual)
     vsrc = ast.unparse(viv.node)
-    # the validator's source with explaining variables read through (`entered = int(s, base)`, `is_hex = ...`)
-    from .common import expand_locals
-    csrc = ast.unparse(cv.node) + " ## " + " ; ".join(expand_locals(cv.node, n, depth=d_) for n in ast.walk(cv.node) if isinstance(n, (ast.Compare, ast.Call)) for d_ in (1, 2, 4))
-    table = [
-        ("INT", "form: base-10 integer", "_is_base_n(value, 10)" in vsrc, "int(s, base)" in csrc and "except ValueError" in csrc),
-        ("HEX", "form: base-16 integer", "_is_base_n(value, 16)" in vsrc, "int(s, base)" in csrc and "except ValueError" in csrc),
-        ("HEX", "non-negative", "int(value, 16) >= 0" in vsrc, any(x in csrc for x in ("int(s, base) >= 0", "int(s, base) < 0", "int(s, 16) < 0", "int(s, 16) >= 0", "startswith('-')"))),
-        ("FLOAT", "form: finite float", "is_float(value)" in vsrc, "is_float(s)" in csrc),
-    ]
-    for ty, label, in_setter, in_validator in table:
-        construct = f"check_valid/{ty} {label}"
-        if not in_setter:
-            ctx.ok(construct + " (setter has no such conjunct)", cv.loc(), nontrivial=False)
-        elif in_validator:
+    for ty, b in (("INT", 10), ("HEX", 16)):
+        if f"_is_base_n(value, {b})" not in vsrc:
+            raise AnchorError(f"Symbol.value_is_valid: the {ty} form check is no longer `_is_base_n(value, {b})`")
+    hex_nonneg = "int(value, 16) >= 0" in vsrc
+    prm = cv.node.args.args[1].arg
+    texts = {prm, f"{prm}.strip()"}
+    for a in ast.walk(cv.node):
+        if isinstance(a, ast.Assign) and len(a.targets) == 1 and isinstance(a.targets[0], ast.Name) and ast.unparse(a.value) == f"{prm}.strip()":
+            texts.add(a.targets[0].id)
+    bases = {"base", "10", "16"}
+    free: Dict[str, str] = {}
+
+    def leaf(node):
+        t = ast.unparse(node).replace('"', "'")
+        if isinstance(node, ast.Call) and ast.unparse(node.func).split(".")[-1] == "_is_base_n" and len(node.args) == 2 \
+                and ast.unparse(node.args[0]) in texts and ast.unparse(node.args[1]) in bases:
+            return "A", True
+        if t in ("sym.orig_type == HEX", "sym.orig_type is HEX", "sym.orig_type != INT", "sym.orig_type is not INT"):
+            return "H", True
+        if t in ("sym.orig_type == INT", "sym.orig_type is INT", "sym.orig_type != HEX", "sym.orig_type is not HEX"):
+            return "H", False
+        if t in ("sym.orig_type == FLOAT", "sym.orig_type is FLOAT"):
+            return "F", True
+        if t in ("sym.orig_type not in (INT, HEX, FLOAT)", "sym.orig_type not in (INT, HEX, FLOAT)".replace("(", "[").replace(")", "]")):
+            return "O", True
+        if t == "sym.orig_type in (INT, HEX, FLOAT)":
+            return "O", False
+        if isinstance(node, ast.Compare) and len(node.ops) == 1 and isinstance(node.left, ast.Call) and ast.unparse(node.left.func) == "int" \
+                and node.left.args and ast.unparse(node.left.args[0]) in texts and ast.unparse(node.comparators[0]) == "0":
+            if isinstance(node.ops[0], ast.Lt):
+                return "N", True
+            if isinstance(node.ops[0], ast.GtE):
+                return "N", False
+        for x in texts:
+            if t in (f"{x}[0] in '+-'", f"{x}[0] in '-+'", f"{x}[:1] in '+-'", f"{x}.startswith(('+', '-'))", f"{x}.startswith(('-', '+'))", f"{x}.strip()[0] in '+-'"):
+                return "G", True
+        key = t
+        free.setdefault(key, f"X{len(free)}")
+        return free[key], True
+
+    def ev(node, v):
+        if isinstance(node, ast.BoolOp):
+            return all(ev(x, v) for x in node.values) if isinstance(node.op, ast.And) else any(ev(x, v) for x in node.values)
+        if isinstance(node, ast.UnaryOp) and isinstance(node.op, ast.Not):
+            return not ev(node.operand, v)
+        a_, pos = leaf(node)
+        return v[a_] if pos else not v[a_]
+
+    def collect(node):
+        if isinstance(node, ast.BoolOp):
+            for x in node.values:
+                collect(x)
+        elif isinstance(node, ast.UnaryOp) and isinstance(node.op, ast.Not):
+            collect(node.operand)
+        else:
+            leaf(node)
+
+    def on_stmt(st, p: Path, loops):
+        if isinstance(st, ast.Return):
+            p.events.append(("RETURN", st.lineno, st))
+    paths = Enumerator(on_stmt, max_iter=1).run(cv.node.body, Path())
+    in_try = {id(x) for t in ast.walk(cv.node) if isinstance(t, ast.Try) for b in t.body for x in ast.walk(b)}
+    accepting = [(p, [(node, pol) for c, pol, ln, node in p.conds]) for p, status in paths if status == RET]
+
+    def ret_of(p):
+        evs = [e for e in p.events if e[0] == "RETURN"]
+        return evs[-1][2] if evs else None
+    decided = []
+    for p, conds in accepting:
+        r = ret_of(p)
+        if r is None:
+            raise AnalysisError("check_valid: a returning path without its return statement")
+        v0 = r.value.elts[0] if isinstance(r.value, ast.Tuple) and r.value.elts else r.value
+        if not (isinstance(v0, ast.Constant) and isinstance(v0.value, bool)):
+            raise AnalysisError(f"check_valid: `return {ast.unparse(r.value)[:40]}` does not start with a boolean constant")
+        decided.append((v0.value, conds, r))
+    for _, conds, _ in decided:
+        for node, pol in conds:
+            collect(node)
+    atoms = ["A", "H", "N", "G", "F", "O"] + sorted(set(free.values()))
+    if len(atoms) > 16:
+        raise AnalysisError(f"check_valid: {len(atoms)} atoms")
+    uses_try_int = any(isinstance(x, ast.Call) and ast.unparse(x.func) == "int" and id(x) in in_try and x.args and ast.unparse(x.args[0]) in texts for x in ast.walk(cv.node))
+    bad = {"INT form: base-10 integer": None, "HEX form: base-16 integer": None, "HEX non-negative": None, "HEX unsigned (applied behind 0x)": None}
+    n_acc = 0
+    for accepts, conds, r in decided:
+        if not accepts:
+            continue
+        for bits in _it.product((True, False), repeat=len(atoms)):
+            v = dict(zip(atoms, bits))
+            if v["F"] or v["O"]:
+                continue  # float / non-numeric part
+            if not all(ev(node, v) == pol for node, pol in conds):
+                continue
+            n_acc += 1
+            if not v["A"]:
+                bad["HEX form: base-16 integer" if v["H"] else "INT form: base-10 integer"] = bad["HEX form: base-16 integer" if v["H"] else "INT form: base-10 integer"] or r
+            if v["H"] and v["N"] and hex_nonneg:
+                bad["HEX non-negative"] = bad["HEX non-negative"] or r
+            if v["H"] and v["G"]:
+                bad["HEX unsigned (applied behind 0x)"] = bad["HEX unsigned (applied behind 0x)"] or r
+    if not n_acc:
+        raise AnalysisError("check_valid: no accepting path for an int / hex text")
+    for label, r in bad.items():
+        construct = f"check_valid/{label}"
+        if r is None:
             ctx.ok(construct, cv.loc())
         else:
-            ctx.bad(construct, f"Symbol.value_is_valid requires `{label}` for {ty} but the input validator does not: the dialog accepts a value that "
-                    "set_value() then rejects, and the option keeps its old value", cv.loc())
+            ctx.bad(construct, f"a path to `return {ast.unparse(r.value)[:30]}` (line {r.lineno}) accepts a text without " +
+                    ("the setter's form predicate _is_base_n() having passed" + (" (the acceptance is decided by int() succeeding, which also takes `1_0` and `+5`)" if uses_try_int else "")
+                     if "form" in label else "excluding a negative number" if "negative" in label else "excluding a sign") +
+                    ": the dialog accepts a value that set_value() then rejects, and the option keeps its old value", cv.loc(r))
+    construct = "check_valid/FLOAT form: finite float"
+    fl_ok = "is_float(value)" in vsrc and any(isinstance(x, ast.Call) and ast.unparse(x.func).split(".")[-1] == "is_float" and x.args and ast.unparse(x.args[0]) in texts
+                                               for x in ast.walk(cv.node))
+    (ctx.ok(construct, cv.loc()) if fl_ok else ctx.bad(construct, "Symbol.value_is_valid requires is_float() for FLOAT but the input validator does not test the text with it", cv.loc()))
 
 
 def r17_4(ctx):
